@@ -89,8 +89,8 @@ class RawWorld:
 
     def step(self, pkttype=None, body=b'', watchdog=3.0):
         """Send one packet (or none) and run to idle under a watchdog."""
-        old = signal.signal(signal.SIGALRM, _alarm)
-        signal.setitimer(signal.ITIMER_REAL, watchdog)
+        old = signal.signal(signal.SIGVTALRM, _alarm)
+        signal.setitimer(signal.ITIMER_VIRTUAL, watchdog)
         try:
             if pkttype is not None:
                 self.loop.call_soon(self.raw.raw_send, pkttype, body)
@@ -101,8 +101,8 @@ class RawWorld:
         except Spin:
             out = 'spin-iterations'
         finally:
-            signal.setitimer(signal.ITIMER_REAL, 0)
-            signal.signal(signal.SIGALRM, old)
+            signal.setitimer(signal.ITIMER_VIRTUAL, 0)
+            signal.signal(signal.SIGVTALRM, old)
         for c in list(self.loop.exceptions):
             if isinstance(c.get('exception'), Watchdog):
                 self.loop.exceptions.remove(c)
